@@ -106,6 +106,9 @@ Section Roundtrip.
     destruct (N.ltb_spec 65535 (N.of_nat (length b))); [lia|reflexivity].
   Qed.
 
+  Lemma nonempty_bin_ok : forall c b, b <> [] -> nonempty_bin c b = new_with_bin c b.
+  Proof. intros c [|x b] H; [contradiction|reflexivity]. Qed.
+
   Ltac known_bin d Hd Hok Hlen Hrest :=
     destruct d as [|b|]; try contradiction; destruct Hd as [Hok [Hlen Hrest]].
 
@@ -155,18 +158,18 @@ Section Roundtrip.
         split; [reflexivity|intros [v6_rt v6_not4]]. cbn [from_api_unchecked]. rewrite ip4_roundtrip_bytes by assumption.
         rewrite !be32_of_be32 by assumption. reflexivity.
       + (* COMMUNITY *)
-        known_bin d Hd Hok Hlen Hm.
+        known_bin d Hd Hok Hlen Hm. destruct Hm as [Hne Hm].
         destruct (read_n_u32_exact b Hm Hok) as [nums [Hr [Hfl _]]].
         exists (ACommunities nums). split; [cbn; rewrite Hr; reflexivity|intros [v6_rt v6_not4]].
-        cbn [from_api_unchecked]. rewrite Hfl. cbn. apply len_check_ok. exact Hlen.
+        cbn [from_api_unchecked]. rewrite Hfl, nonempty_bin_ok by exact Hne. cbn. apply len_check_ok. exact Hlen.
       + (* ORIGINATOR_ID *)
         destruct d as [v| |]; try contradiction. exists (AOriginatorId (ip4_to_string v)).
         split; [reflexivity|intros [v6_rt v6_not4]]. cbn [from_api_unchecked]. rewrite ip4_roundtrip by exact Hd. reflexivity.
       + (* CLUSTER_LIST *)
-        known_bin d Hd Hok Hlen Hm.
+        known_bin d Hd Hok Hlen Hm. destruct Hm as [Hne Hm].
         destruct (read_n_u32_exact b Hm Hok) as [nums [Hr [Hfl [_ Hu]]]].
         exists (AClusterList (map ip4_to_string nums)). split; [cbn; rewrite Hr; reflexivity|intros [v6_rt v6_not4]].
-        cbn [from_api_unchecked]. rewrite parse_ids_map by exact Hu. rewrite Hfl.
+        cbn [from_api_unchecked]. rewrite parse_ids_map by exact Hu. rewrite Hfl, nonempty_bin_ok by exact Hne.
         cbn. apply len_check_ok. exact Hlen.
       + (* MP_REACH: shown as Unknown *)
         known_bin d Hd Hok Hlen Ht. exists (AUnknown f 14 b). split; [reflexivity|intros [v6_rt v6_not4]].
@@ -177,18 +180,18 @@ Section Roundtrip.
         cbn [from_api_unchecked]. unfold len_ok in Hlen.
         destruct (N.ltb_spec 65535 (N.of_nat (length b))); [lia|]. cbn. apply len_check_ok. exact Hlen.
       + (* EXTENDED_COMMUNITY *)
-        known_bin d Hd Hok Hlen Hm.
+        known_bin d Hd Hok Hlen Hm. destruct Hm as [Hne Hm].
         destruct (extcoms_roundtrip (length b / 8) b) as [xs [Hr Hw]]; [|exact Hok|].
         { pose proof (Nat.div_mod (length b) 8). lia. }
         exists (AExtCommunities xs). split; [cbn; rewrite Hr; reflexivity|intros [v6_rt v6_not4]].
-        cbn [from_api_unchecked]. rewrite Hw. cbn. apply len_check_ok. exact Hlen.
+        cbn [from_api_unchecked]. rewrite Hw, nonempty_bin_ok by exact Hne. cbn. apply len_check_ok. exact Hlen.
       + (* AS4_PATH *)
         known_bin d Hd Hok Hlen Hw. destruct Hw as [Hw Hne]. exists (AUnknown f 17 b). split; [reflexivity|intros [v6_rt v6_not4]].
         cbn [from_api_unchecked]. unfold len_ok in Hlen.
         destruct (N.ltb_spec 65535 (N.of_nat (length b))); [lia|]. cbn -[decode_value].
-        assert (E1 : Nat.eqb (Nat.modulo (length b) 2) 0 = true) by (rewrite (wf4_even b Hw); reflexivity).
-        assert (E2 : Nat.leb 6 (length b) = true) by (apply Nat.leb_le; apply wf4_len6; assumption).
-        assert (E3 : aspath_valid (S (length b)) false b = true) by (apply wf4_valid; [exact Hw|lia]).
+        assert (E1 : Nat.eqb (Nat.modulo (length b) 2) 0 = true) by (rewrite (wf_even b Hw); reflexivity).
+        assert (E2 : Nat.leb 6 (length b) = true) by (apply Nat.leb_le; apply wf_len6; assumption).
+        assert (E3 : aspath_valid (S (length b)) false b = true) by (apply wf_valid; [exact Hw|lia]).
         unfold decode_value. cbn -[Nat.leb Nat.eqb Nat.modulo aspath_valid]. rewrite E1, E2, E3.
         cbn. apply len_check_ok. exact Hlen.
       + (* AS4_AGGREGATOR *)
@@ -201,13 +204,13 @@ Section Roundtrip.
         cbn [from_api_unchecked]. unfold len_ok in Hlen.
         destruct (N.ltb_spec 65535 (N.of_nat (length b))); [lia|]. cbn. apply len_check_ok. exact Hlen.
       + (* LARGE_COMMUNITY *)
-        known_bin d Hd Hok Hlen Hm.
+        known_bin d Hd Hok Hlen Hm. destruct Hm as [Hne Hm].
         destruct (read_n_u32_app (3 * (length b / 12)) b []) as [nums [Hr [Hfl [Hnl _]]]]; [|exact Hok|].
         { pose proof (Nat.div_mod (length b) 12). lia. }
         rewrite app_nil_r in Hr.
         exists (ALargeCommunities (triples nums)). split; [cbn -[Nat.mul]; rewrite Hr; reflexivity|intros _].
-        cbn [from_api_unchecked]. rewrite (triples_flat (length b / 12)) by exact Hnl. rewrite Hfl.
-        cbn. apply len_check_ok. exact Hlen.
+        cbn [from_api_unchecked]. rewrite (triples_flat (length b / 12)) by exact Hnl.
+        rewrite Hfl, nonempty_bin_ok by exact Hne. cbn. apply len_check_ok. exact Hlen.
     - (* a type without a definition: held opaque *)
       destruct d as [| |b]; try contradiction. destruct Hd as [Hok Hlen].
       exists (AUnknown f c b). unfold class_bits_ok in Hcb. rewrite E in Hcb. split.
